@@ -419,3 +419,107 @@ def nested_lookup_and_reference_resolution(ctx: Ctx) -> None:
         else:
             ctx.ob("build_substitutions looks an UNPREFIXED head up in the prefix map too (default namespace before target namespace)", tab == {(True,): True, (False,): True}, at=owner, node=c,
                    construct="substitution head namespace", msg="an unprefixed substitutionGroup head skips the default namespace declaration: the member is registered under a head that does not exist and its element is dropped")
+
+
+@rule("C02.R9")
+def own_prefix_bindings_precede_name_resolution(ctx: Ctx) -> None:
+    """SchemaMapper resolves prefixed type / ref names against the class's accumulated prefix map (`target.ns_map`).  A member declaration may
+    carry xmlns bindings of its own; the function that merges them (`T.ns_map.update(O.ns_map)`) must do so before it hands T to any routine
+    that (transitively) reads `T.ns_map` - else the prefix silently falls back to the target namespace and the member is retyped."""
+    mod = "xsdata.codegen.mappers.schema"
+    funcs = {fi.name: fi for fi in ctx.repo.funcs_in(mod) if fi.cls is not None and fi.cls.name == "SchemaMapper"}
+    if not funcs:
+        raise AnalysisError("anchor vanished: SchemaMapper")
+
+    def pnames(fi: FuncInfo) -> list[str]:
+        return [a.arg for a in fi.pos_params if a.arg not in ("cls", "self")]
+
+    def merges_of(fi: FuncInfo) -> list[tuple[ast.Call, str]]:
+        out = []
+        for c in calls_in(fi.node):
+            f = c.func
+            if isinstance(f, ast.Attribute) and f.attr == "update" and isinstance(f.value, ast.Attribute) and f.value.attr == "ns_map" and isinstance(f.value.value, ast.Name) \
+                    and c.args and any(isinstance(x, ast.Attribute) and x.attr == "ns_map" for x in ast.walk(c.args[0])):
+                out.append((c, f.value.value.id))
+        return out
+
+    def bound(c: ast.Call, callee: FuncInfo) -> dict[str, ast.expr]:
+        ps = pnames(callee)
+        m = {p: a for p, a in zip(ps, c.args) if not isinstance(a, ast.Starred)}
+        m.update({k.arg: k.value for k in c.keywords if k.arg})
+        return m
+
+    def callee_of(c: ast.Call) -> FuncInfo | None:
+        f = c.func
+        if isinstance(f, ast.Attribute) and isinstance(f.value, ast.Name) and f.value.id in ("cls", "self", "SchemaMapper"):
+            return funcs.get(f.attr)
+        return None
+
+    reads: set[tuple[str, str]] = set()
+    for name, fi in funcs.items():
+        ps = set(pnames(fi))
+        writers = {id(c.func.value) for c, _t in merges_of(fi)}
+        for x in walk_no_nested(fi.node):
+            if isinstance(x, ast.Attribute) and x.attr == "ns_map" and isinstance(x.ctx, ast.Load) and isinstance(x.value, ast.Name) and x.value.id in ps and id(x) not in writers:
+                reads.add((name, x.value.id))
+    changed = True
+    while changed:
+        changed = False
+        for name, fi in funcs.items():
+            ps = set(pnames(fi))
+            for c in calls_in(fi.node):
+                cal = callee_of(c)
+                if cal is None:
+                    continue
+                for p, a in bound(c, cal).items():
+                    if (cal.name, p) in reads and isinstance(a, ast.Name) and a.id in ps and (name, a.id) not in reads:
+                        reads.add((name, a.id))
+                        changed = True
+    n = 0
+    for name, fi in funcs.items():
+        ms = merges_of(fi)
+        if not ms:
+            continue
+        g = build_cfg(fi.node)
+        for mc, tname in ms:
+            mn = node_containing(g, mc)
+            if mn is None:
+                continue
+            for c in calls_in(fi.node):
+                cal = callee_of(c)
+                if cal is None or c is mc:
+                    continue
+                if not any((cal.name, p) in reads and isinstance(a, ast.Name) and a.id == tname for p, a in bound(c, cal).items()):
+                    continue
+                cn = node_containing(g, c)
+                if cn is None:
+                    continue
+                n += 1
+                ctx.ob(f"{name}: the member's own prefix bindings are merged into `{tname}.ns_map` before {cal.name}() resolves names against it", g.must_pass(g.entry, cn.id, {mn.id}), at=fi, node=c,
+                       construct=f"scope merged before {cal.name}",
+                       msg=f"{cal.name}({tname}, ...) can run before `{tname}.ns_map.update(...)`: a prefix declared on the member declaration itself is not in scope when its type / ref is resolved - the lookup falls back to the target "
+                           "namespace, the type is reported absent and the field is silently retyped to str")
+    ctx.note("C02.R9 resolution calls after a scope merge", n)
+    if not n:
+        ctx.abstain("scope merge of member declarations in SchemaMapper", at=next(iter(funcs.values())), why="no function both merges a member's ns_map into the class map and hands the class to a prefix-resolving routine")
+
+
+@rule("C02.R10")
+def text_carrier_is_never_an_xml_attribute(ctx: Ctx) -> None:
+    """FlattenClassExtensions.get_or_create_attribute finds or creates the field that carries a simple-content base type (the text `value`
+    field) or a wildcard.  An existing field of that name is reused only if it is not an XML attribute: a complexType with simpleContent may
+    well declare an attribute called `value`; merging the text type into it loses the element text."""
+    fi = ctx.repo.func("xsdata.codegen.handlers.flatten_class_extensions:FlattenClassExtensions.get_or_create_attribute")
+    made = [c for c in calls_in(fi.node) if call_name_of(c) == "Attr"]
+    if not made:
+        ctx.abstain("creation branch of get_or_create_attribute", at=fi, why="no Attr(...) constructor call in the function")
+        return
+    for c in made:
+        tab = reach_table(fi, c, [{"_ is None": True, "_ is not None": False}, cmp_atom("_.tag", "==", "Tag.ATTRIBUTE")])
+        if tab is None:
+            ctx.abstain("creation guard of get_or_create_attribute", at=fi)
+            continue
+        ctx.ob("get_or_create_attribute creates a fresh field when none exists and also when the one found is an XML attribute", tab[(True, False)] and tab[(True, True)] and tab[(False, True)], at=fi, node=c,
+               construct="text carrier vs attribute",
+               msg=f"(found is None, found.tag == ATTRIBUTE) -> creates: {sorted(tab.items())}: the base type of a simpleContent class that declares an attribute named like the text field ('value') is appended to that "
+                   "attribute and no text field is generated - element text is silently dropped on serialization")
